@@ -123,6 +123,17 @@ func (i *interpreter) resolveExternal(fn *ssa.Function) externalFn {
 		return func(fr *frame, a []value) value { fr.i.mutexLock(fr, fr.nilCheck(a[0].(*value))); return nil }
 	case "(*sync.Mutex).Unlock", "(*sync.RWMutex).Unlock":
 		return func(fr *frame, a []value) value { fr.i.mutexUnlock(fr, fr.nilCheck(a[0].(*value))); return nil }
+	case "(*sync.Mutex).TryLock", "(*sync.RWMutex).TryLock":
+		return func(fr *frame, a []value) value {
+			i := fr.i
+			m := i.mutexOf(fr.nilCheck(a[0].(*value)), fr)
+			if m.holder != nil {
+				return false
+			}
+			m.holder = fr.th
+			i.logEvent(fr.th, "lock", m.id, 0, m.name, fr)
+			return true
+		}
 	case "(*sync.WaitGroup).Add":
 		return func(fr *frame, a []value) value {
 			fr.i.wgAdd(fr, fr.nilCheck(a[0].(*value)), int(asInt64(a[1])))
